@@ -79,33 +79,33 @@ CHECKS = {
         clauses=CROSS | {"accept", "export-error"},
         phases=dict(quick=[dict(profile="core2"), dict(profile="agg3"), dict(profile="wins3"), dict(profile="win2"),
                            dict(profile="join2"), dict(profile="joins3"), dict(profile="union2"), dict(profile="tall2"), dict(profile="hidsub4")],
-                    thorough=[dict(profile="core3"), dict(profile="agg3"), dict(profile="win3"), dict(profile="wins4"),
+                    thorough=[dict(profile="hidsub4"), dict(profile="core3"), dict(profile="agg3"), dict(profile="win3"), dict(profile="wins4"),
                               dict(profile="join3"), dict(profile="joins4"), dict(profile="union3"), dict(profile="tall2")]),
     ),
     "C06": dict(
         level="model_checking",
         clauses=GEN_CLAUSES_SPEC | {"errclass"},
         phases=dict(quick=[dict(kind="joinnames"), dict(kind="argspace", verbs=["joinrows"]), dict(kind="flatjoin", pre=2), dict(profile="join2"), dict(profile="joins3"), dict(profile="joinh4")],
-                    thorough=[dict(kind="joinnames", lu=["a", "b", "a_t2", "b_t2", "a_t2_1", "b_t2_1", "a_t2_2", "a_x"], ru=["a", "b", "c", "a_t2", "b_t2"]),
+                    thorough=[dict(kind="argspace", verbs=["joinrows"], jkeys=[0, 1, 2, 3], jmax=3), dict(kind="joinnames", lu=["a", "b", "a_t2", "b_t2", "a_t2_1", "b_t2_1", "a_t2_2", "a_x"], ru=["a", "b", "c", "a_t2", "b_t2"]),
                               dict(kind="flatjoin", pre=3, pairs=[(1, 2), (6, 2), (7, 2)]), dict(profile="join2"), dict(profile="join3"), dict(profile="joins4"), dict(profile="joinh4")]),
     ),
     "C07": dict(
         level="model_checking",
         clauses=GEN_CLAUSES_SPEC | {"errclass"},
-        phases=dict(quick=[dict(kind="argspace", verbs=["union"]), dict(profile="union2"), dict(profile="unionh4")], thorough=[dict(profile="union2"), dict(profile="union3"), dict(profile="unionh4")]),
+        phases=dict(quick=[dict(kind="argspace", verbs=["union"]), dict(profile="union2"), dict(profile="unionh4")], thorough=[dict(kind="argspace", verbs=["union"], ucols=["a", "b", "c", "d"]), dict(profile="union2"), dict(profile="union3"), dict(profile="unionh4")]),
     ),
     "C08": dict(
         level="model_checking",
         clauses=SUBQ | {"rows", "order", "names", "export-error", "accept", "flat-correct"}, backends={"sqlite"},
         phases=dict(quick=[dict(kind="flat", depth=5), dict(kind="flat", depth=3, paths=True), dict(kind="flat", depth=4, alias=True), dict(kind="flat", depth=4, paths=True, alias=True, srcs=[1]), dict(kind="argspace", verbs=["slices"], sizes=[5], ns=[1, 2, 4], ks=[0, 1, 2]), dict(kind="flatjoin", pre=2), dict(profile="gsub4"), dict(profile="subq4"), dict(profile="wins3"), dict(profile="agg3"), dict(profile="joins3"), dict(profile="union2")],
-                    thorough=[dict(kind="flat", depth=6, srcs=[1, 6, 7], timeout=1800), dict(kind="flat", depth=4, paths=True), dict(kind="flatjoin", pre=3), dict(profile="wins4"), dict(profile="agg3"), dict(profile="win3"),
+                    thorough=[dict(profile="subq5"), dict(profile="gsub4"), dict(kind="argspace", verbs=["slices"], ns=[0, 1, 2, 3, 6], ks=[0, 1, 2, 4, 7], sizes=[4, 6]), dict(kind="flat", depth=6, srcs=[1, 6, 7], timeout=1800), dict(kind="flat", depth=4, paths=True), dict(kind="flatjoin", pre=3), dict(profile="wins4"), dict(profile="agg3"), dict(profile="win3"),
                               dict(profile="joins4"), dict(profile="union3")]),
     ),
     "C02": dict(
         level="model_checking",
         clauses=GEN_CLAUSES_SPEC,
         phases=dict(quick=[dict(kind="proofs", canary=False), dict(kind="verbnames"), dict(kind="argspace", verbs=["slices"]), dict(profile="core2"), dict(profile="imm3", opts=dict(pool=True)), dict(profile="subq4"), dict(profile="wins3"), dict(profile="tall2")],
-                    thorough=[dict(kind="proofs", canary=False), dict(kind="verbnames", cols=["a", "b", "c", "x"], keys=["a", "b", "c", "x", "z"], vals=["a", "b", "c", "x", "y"]), dict(profile="core2"), dict(profile="core3"), dict(profile="imm4", opts=dict(pool=True)), dict(profile="wins4"), dict(profile="tall2"), dict(profile="reroot3")]),
+                    thorough=[dict(profile="subq5"), dict(kind="argspace", verbs=["slices"], ns=[0, 1, 2, 3, 6], ks=[0, 1, 2, 4, 7], sizes=[0, 1, 4, 6]), dict(kind="proofs", canary=False), dict(kind="verbnames", cols=["a", "b", "c", "x"], keys=["a", "b", "c", "x", "z"], vals=["a", "b", "c", "x", "y"]), dict(profile="core2"), dict(profile="core3"), dict(profile="imm4", opts=dict(pool=True)), dict(profile="wins4"), dict(profile="tall2"), dict(profile="reroot3")]),
     ),
     "C03": dict(
         level="model_checking",
@@ -137,7 +137,7 @@ CHECKS = {
     "C09": dict(
         level="model_checking",
         clauses=GEN_CLAUSES_SPEC | {"errclass", "getname"},
-        phases=dict(quick=[dict(profile="ref3"), dict(profile="joinh4"), dict(profile="hidsub4")], thorough=[dict(profile="ref3"), dict(profile="ref4"), dict(profile="joinh4")]),
+        phases=dict(quick=[dict(profile="ref3"), dict(profile="joinh4"), dict(profile="hidsub4")], thorough=[dict(profile="hidsub4"), dict(profile="ref3"), dict(profile="ref4"), dict(profile="joinh4")]),
     ),
     "C12": dict(
         level="model_checking",
@@ -155,7 +155,7 @@ CHECKS = {
                            dict(profile="wins3", backends=("sqlite", "postgres", "mssql")),
                            dict(profile="join2", backends=("sqlite", "postgres", "mssql")),
                            dict(profile="union2", backends=("sqlite", "postgres", "mssql"))],
-                    thorough=[dict(kind="impls", max_arity=2),
+                    thorough=[dict(profile="wins3", backends=("sqlite", "postgres", "mssql")), dict(kind="impls", max_arity=2),
                               dict(profile="core3", backends=("sqlite", "postgres", "mssql")),
                               dict(profile="agg3", backends=("sqlite", "postgres", "mssql")),
                               dict(profile="win3", backends=("sqlite", "postgres", "mssql")),
@@ -201,7 +201,7 @@ CHECKS = {
         clauses={"immut-fp", "immut-data", "immut-query", "immut-source", "rows", "order", "names", "accept", "group"},
         phases=dict(quick=[dict(profile="imm3", opts=dict(immut=True)), dict(profile="core2", opts=dict(immut=True)),
                            dict(profile="subq4", opts=dict(immut=True))],
-                    thorough=[dict(profile="imm4", opts=dict(immut=True)), dict(profile="agg3", opts=dict(immut=True)), dict(profile="subq5", opts=dict(immut=True)),
+                    thorough=[dict(profile="core2", opts=dict(immut=True)), dict(profile="imm4", opts=dict(immut=True)), dict(profile="agg3", opts=dict(immut=True)), dict(profile="subq5", opts=dict(immut=True)),
                               dict(profile="wins3", opts=dict(immut=True)), dict(profile="join2", opts=dict(immut=True))]),
     ),
     "C11": dict(
@@ -210,7 +210,7 @@ CHECKS = {
                  "trace-sql-filtered", "trace-sql-grouped", "names"},
         phases=dict(quick=[dict(kind="verbnames"), dict(kind="joinnames"), dict(profile="core2"), dict(profile="join2"), dict(profile="union2"), dict(profile="hidsub4"),
                            dict(kind="tracemeta", profiles=[("core2", 400), ("join2", 300), ("agg3", 300)])],
-                    thorough=[dict(kind="verbnames", cols=["a", "b", "c", "x"], keys=["a", "b", "c", "x", "z"], vals=["a", "b", "c", "x", "y"]),
+                    thorough=[dict(profile="hidsub4"), dict(kind="verbnames", cols=["a", "b", "c", "x"], keys=["a", "b", "c", "x", "z"], vals=["a", "b", "c", "x", "y"]),
                               dict(kind="joinnames", lu=["a", "b", "a_t2", "b_t2", "a_t2_1", "b_t2_1", "a_t2_2", "a_x"], ru=["a", "b", "c", "a_t2", "b_t2"]),
                               dict(profile="core3"), dict(profile="join3"), dict(profile="union3"), dict(profile="agg3"), dict(profile="reroot3"),
                               dict(kind="tracemeta", profiles=[("core3", 3000), ("join3", 3000), ("agg3", 2000), ("wins3", 2000), ("reroot3", 2000)])]),
